@@ -268,7 +268,7 @@ fn dump_crate<'tcx>(tcx: TyCtxt<'tcx>, name: &str, nonce: &str) -> J {
     for ldid in tcx.mir_keys(()).iter() {
         let did = ldid.to_def_id();
         match tcx.def_kind(did) {
-            DefKind::Fn | DefKind::AssocFn | DefKind::Closure => {}
+            DefKind::Fn | DefKind::AssocFn | DefKind::Closure | DefKind::InlineConst => {}
             _ => continue,
         }
         fns.push(dump_fn(tcx, *ldid));
@@ -544,7 +544,11 @@ fn dump_unsafe<'tcx>(tcx: TyCtxt<'tcx>) -> Vec<J> {
 fn dump_fn<'tcx>(tcx: TyCtxt<'tcx>, ldid: LocalDefId) -> J {
     let did = ldid.to_def_id();
     let kind = tcx.def_kind(did);
-    let body: &Body<'tcx> = tcx.optimized_mir(did);
+    let body: &Body<'tcx> = if matches!(kind, DefKind::InlineConst) {
+        tcx.mir_for_ctfe(did)
+    } else {
+        tcx.optimized_mir(did)
+    };
     let tenv = TypingEnv::post_analysis(tcx, did);
 
     let mut o: Vec<(String, J)> = vec![
@@ -561,7 +565,10 @@ fn dump_fn<'tcx>(tcx: TyCtxt<'tcx>, ldid: LocalDefId) -> J {
             J::s(format!("{:?}", tcx.def_kind(parent))),
         ));
     }
-    if matches!(kind, DefKind::Closure) {
+    if matches!(kind, DefKind::InlineConst) {
+        let root = tcx.typeck_root_def_id(did);
+        o.push(("root".into(), J::s(def_s(tcx, root))));
+    } else if matches!(kind, DefKind::Closure) {
         let root = tcx.typeck_root_def_id(did);
         o.push(("root".into(), J::s(def_s(tcx, root))));
         // captured variables in upvar order
